@@ -307,6 +307,19 @@ def main(ctx):
                 continue
             for rel, lang in slice_:
                 cases.append(family.Case(corpus.read(rel), lang, {o['name']: v}, {'kind': 'sweep', 'file': rel}))
+    # enumerated brace shapes (single-line and multi-line conditions) x brace options incl. the multi-line-condition guard
+    bcfgs = [{'mod_full_brace_if': 'remove', 'mod_full_brace_for': 'remove', 'mod_full_brace_while': 'remove'},
+             {'mod_full_brace_if': 'add', 'mod_full_brace_for': 'add', 'mod_full_brace_while': 'add'},
+             {'mod_full_brace_if_chain': '1'}, {'mod_full_brace_if_chain': '1', 'mod_full_brace_nl_block_rem_mlcond': 'true'},
+             {'mod_full_brace_if': 'remove', 'mod_full_brace_for': 'remove', 'mod_full_brace_while': 'remove', 'mod_full_brace_nl_block_rem_mlcond': 'true'},
+             {'mod_full_brace_if_chain': '3', 'mod_full_brace_nl_block_rem_mlcond': 'true'}, {'mod_full_brace_if_chain': '2'}]
+    nshape = 0
+    import itertools
+    for name, src in itertools.chain(gen_c.brace_shapes(2 if quick else 3), gen_c.brace_shapes_ml(2)):
+        nshape += 1
+        for bc in bcfgs:
+            cases.append(family.Case(src.encode(), 'C', bc, {'kind': 'brace-shape', 'file': 'shape:' + name}))
+    ctx.extra['brace_shapes'] = nshape
     raw = family.explore(ctx, judge, cases)
     raw += family.hyp_explore(ctx, judge, make_strategy, to_case, shards=16, examples=(250 if quick else 5000))
     family.triage(ctx, judge, raw)
